@@ -41,11 +41,26 @@ pub fn classified_gaps(doc: &Doc) -> Vec<(PosClass, usize, usize)> {
         match prev.text.as_str() {
             ":=" => out.push((PosClass::ExpressionStart, k, prev.decl)),
             "(" if in_proc && k >= 2 => {
-                // `(` of a call, an if or a while (not the parameter list, not a bracketed expression)
+                // any `(` inside a statement: of a call, an if, a while or a bracketed
+                // expression (not the parameter list of the procedure header)
                 let before = &toks[k - 2];
-                let is_call = matches!(before.class, TokClass::Ident(Role::ProcUse));
-                let is_cond = matches!(before.text.as_str(), "if" | "while");
-                if is_call || is_cond {
+                let is_header = matches!(before.class, TokClass::Ident(Role::ProcDecl));
+                // inside an assignment only behind its `:=` (the left-hand side is "an arbitrary
+                // identifier" for the implementation and the property names `:=` as the start)
+                let mut best: Option<&Span> = None;
+                for sp in &doc.pr.spans {
+                    if matches!(sp.kind, NodeKind::StmtAssign | NodeKind::StmtCall | NodeKind::StmtIf | NodeKind::StmtWhile) && sp.first < k && k <= sp.end {
+                        if best.map(|b| sp.end - sp.first <= b.end - b.first).unwrap_or(true) {
+                            best = Some(sp);
+                        }
+                    }
+                }
+                let behind_assign = match best {
+                    Some(sp) if sp.kind == NodeKind::StmtAssign => toks[sp.first..k - 1].iter().any(|t| t.text == ":="),
+                    Some(_) => true,
+                    None => false,
+                };
+                if !is_header && behind_assign {
                     out.push((PosClass::ExpressionStart, k, prev.decl));
                 }
             }
